@@ -150,3 +150,140 @@ def selector_scenario(nmax=4, twin=False):
 def symx_stop():
     from . import symx
     return symx.PathStop
+
+
+INVALID_KINDS = ["buffer-capacity", "fleet-capacity", "sconv-capacity", "cconv-length", "bufferstore-capacity", "fleetstore-capacity",
+                 "buffer-mode", "buffer-delay-negative", "fleet-delay-negative", "fleet-transit-negative", "machine-delay-negative",
+                 "source-iat-negative", "nonblocking-source-zero-iat", "machine-without-in-edge", "machine-without-out-edge", "source-without-out-edge",
+                 "sink-without-in-edge", "machine-in-index-out-of-range", "machine-out-index-out-of-range", "source-out-index-out-of-range",
+                 "splitter-without-out-edge", "combiner-without-in-edge"]
+
+
+def ctor_scenario(twin=False):
+    """invalid configurations must be rejected with an error (at construction or when the model starts to run), never silently simulated"""
+    def fn(ctx):
+        load_repo()
+        import simpy
+        from factorysimpy.nodes.source import Source
+        from factorysimpy.nodes.machine import Machine
+        from factorysimpy.nodes.sink import Sink
+        from factorysimpy.nodes.splitter import Splitter
+        from factorysimpy.nodes.combiner import Combiner
+        from factorysimpy.edges.buffer import Buffer
+        from factorysimpy.edges.fleet import Fleet
+        from factorysimpy.base.buffer_store import BufferStore
+        from factorysimpy.base.fleet_store import FleetStore
+        from factorysimpy.edges.slotted_conveyor import ConveyorBelt as SConv
+        from factorysimpy.edges.continuous_conveyor import ConveyorBelt as CConv
+        from . import symx
+        env = make_env()
+        kind = INVALID_KINDS[ctx.choice(len(INVALID_KINDS), "invalid-kind")]
+        err = None
+        routed = {"n": 0}
+
+        def line(src_kw=None, m_kw=None, b1_kw=None, b2=None, connect=(True, True, True, True), sink=True):
+            src = Source(env, "S", **dict(dict(inter_arrival_time=1, blocking=True, out_edge_selection=0), **(src_kw or {})))
+            m = Machine(env, "M", **dict(dict(processing_delay=1, in_edge_selection=0, out_edge_selection=0), **(m_kw or {})))
+            k = Sink(env, "K") if sink else None
+            b1 = Buffer(env, "B1", **dict(dict(capacity=2, delay=0), **(b1_kw or {})))
+            e2 = b2 if b2 is not None else Buffer(env, "B2", capacity=2)
+            return src, m, k, b1, e2
+        try:
+            if kind in ("buffer-capacity", "fleet-capacity", "sconv-capacity", "bufferstore-capacity", "fleetstore-capacity"):
+                c = ctx.int("cap", None, 0)
+                if kind == "buffer-capacity":
+                    Buffer(env, "B", capacity=c)
+                elif kind == "fleet-capacity":
+                    Fleet(env, "F", capacity=c)
+                elif kind == "sconv-capacity":
+                    SConv(env, "C", capacity=c, delay=1, accumulating=1)
+                elif kind == "bufferstore-capacity":
+                    BufferStore(env, capacity=c)
+                else:
+                    FleetStore(env, capacity=c)
+            elif kind == "cconv-length":
+                CConv(env, "C", conveyor_length=[0, -1, -2.5][ctx.choice(3, "len")], speed=1, item_length=1, accumulating=1)
+            elif kind == "buffer-mode":
+                Buffer(env, "B", capacity=2, mode=["fifo", "LILO", "", "RANDOM", None][ctx.choice(5, "mode")])
+            else:
+                neg = ctx.real("neg", None, 0)
+                ctx.assume(neg < 0)
+                if kind == "buffer-delay-negative":
+                    src, m, k, b1, b2 = line(b1_kw=dict(delay=neg))
+                    b1.connect(src, m); b2.connect(m, k)
+                elif kind == "fleet-delay-negative":
+                    f = Fleet(env, "F", capacity=2, delay=neg, transit_delay=1)
+                    src, m, k, b1, b2 = line()
+                    b1.connect(src, m); f.connect(m, k)
+                elif kind == "fleet-transit-negative":
+                    f = Fleet(env, "F", capacity=2, delay=1, transit_delay=neg)
+                    src, m, k, b1, b2 = line()
+                    b1.connect(src, m); f.connect(m, k)
+                elif kind == "machine-delay-negative":
+                    src, m, k, b1, b2 = line(m_kw=dict(processing_delay=neg))
+                    b1.connect(src, m); b2.connect(m, k)
+                elif kind == "source-iat-negative":
+                    src, m, k, b1, b2 = line(src_kw=dict(inter_arrival_time=neg))
+                    b1.connect(src, m); b2.connect(m, k)
+                elif kind == "nonblocking-source-zero-iat":
+                    Source(env, "S", inter_arrival_time=[0, 0.0][ctx.choice(2, "zero")], blocking=False)
+                elif kind == "machine-without-in-edge":
+                    src, m, k, b1, b2 = line()
+                    b2.connect(m, k)
+                elif kind == "machine-without-out-edge":
+                    src, m, k, b1, b2 = line()
+                    b1.connect(src, m)
+                elif kind == "source-without-out-edge":
+                    Source(env, "S", inter_arrival_time=1, blocking=True)
+                elif kind == "sink-without-in-edge":
+                    Sink(env, "K")
+                elif kind == "splitter-without-out-edge":
+                    src, m, k, b1, b2 = line()
+                    s = Splitter(env, "X", processing_delay=1)
+                    b1.connect(src, s)
+                elif kind == "combiner-without-in-edge":
+                    src, m, k, b1, b2 = line()
+                    c = Combiner(env, "X", target_quantity_of_each_item=[1], processing_delay=1)
+                    b2.connect(c, k)
+                else:
+                    n_edges = 1 + ctx.choice(2, "n_edges")
+                    bad = [-1, n_edges, n_edges + 1][ctx.choice(3, "bad-index")]
+                    if kind == "machine-in-index-out-of-range":
+                        m = Machine(env, "M", processing_delay=1, in_edge_selection=bad, out_edge_selection=0)
+                        k = Sink(env, "K")
+                        for i in range(n_edges):
+                            s = Source(env, f"S{i}", inter_arrival_time=1, blocking=True, out_edge_selection=0)
+                            Buffer(env, f"B{i}", capacity=2).connect(s, m)
+                        Buffer(env, "O", capacity=2).connect(m, k)
+                    elif kind == "machine-out-index-out-of-range":
+                        m = Machine(env, "M", processing_delay=1, in_edge_selection=0, out_edge_selection=bad)
+                        s = Source(env, "S", inter_arrival_time=1, blocking=True, out_edge_selection=0)
+                        Buffer(env, "I", capacity=2).connect(s, m)
+                        for i in range(n_edges):
+                            Buffer(env, f"O{i}", capacity=2).connect(m, Sink(env, f"K{i}"))
+                    else:
+                        s = Source(env, "S", inter_arrival_time=1, blocking=True, out_edge_selection=bad)
+                        m = Machine(env, "M", processing_delay=1)
+                        Buffer(env, "I", capacity=2).connect(s, m)
+                        Buffer(env, "O", capacity=2).connect(m, Sink(env, "K"))
+            # the model was accepted at construction: it must fail when it starts to run
+            stop = env.event()
+            stop._ok = True
+            stop._value = None
+            env.schedule(stop, 0, 6)
+            n = 0
+            while env._queue and env._queue[0][3] is not stop and n < 3000:
+                env.step()
+                n += 1
+        except symx.PathStop:
+            raise
+        except Exception as e:
+            err = e
+        ctx.hit("C20:invalid-config-checked")
+        ctx.hit("C20:invalid:" + kind)
+        if err is None:
+            ctx.fail(f"C20:invalid-configuration-silently-simulated[{kind}]", {})
+        ctx.hit("complete")
+        if twin:
+            ctx.fail("TWIN:reached-end")
+    return fn
